@@ -111,15 +111,18 @@ func init() {
 			{Name: "packed", Run: c13Packed},
 			{Name: "random", TShards: 2, Run: c13Random},
 			{Name: "bytes", Run: c13Bytes},
-			{Name: "longcontext", QShards: 4, TShards: 10, Run: func(c *Ctx) {
+			{Name: "longcontext", QShards: 8, TShards: 12, Run: func(c *Ctx) {
 				longContextPanics(c, 0, "ACGTacgt", []byte{'N', 'U', 'u', '@', 0, 0xff, 'B', 0x80, '`'}, map[string]func([]byte){
-					"DNATo2Bit": func(s []byte) { sequtil.DNATo2Bit(nil, s) }})
+					"DNATo2Bit": func(s []byte) { sequtil.DNATo2Bit(nil, s) },
+					// a destination with room for the whole result (the usual reused buffer): another path, the same contract
+					"DNATo2Bit (dst with spare capacity)": func(s []byte) { sequtil.DNATo2Bit(make([]byte, 3, 8+len(s)), s) }})
 			}},
 			{Name: "readers", Race: true, QShards: 2, TShards: 4, Run: c13Readers},
 			{Name: "parallel", Race: true, Run: sequtilParallel("pack")},
 			firstCallUnit(firstSequtilPack),
 			firstParallelUnit(parSequtilPack),
 			reuseUnit(reusePack),
+			roundLensUnit(reusePack),
 		},
 	})
 	register(&Property{
@@ -135,15 +138,19 @@ func init() {
 			{Name: "panics", Run: c14Panics},
 			{Name: "aminoname", Run: c14AminoName},
 			{Name: "framepanics", Run: c14FramePanics},
-			{Name: "longcontext", QShards: 4, TShards: 10, Run: func(c *Ctx) {
+			{Name: "longcontext", QShards: 8, TShards: 12, Run: func(c *Ctx) {
 				longContextPanics(c, 0, "ACGTacgt", []byte{'N', 'U', '@', 0, 0xff, 0x80}, map[string]func([]byte){
-					"Translate":              func(s []byte) { sequtil.Translate(nil, append(append([]byte{}, s...), "AA"[:(3-len(s)%3)%3]...)) },
+					"Translate": func(s []byte) { sequtil.Translate(nil, append(append([]byte{}, s...), "AA"[:(3-len(s)%3)%3]...)) },
+					"Translate (dst with spare capacity)": func(s []byte) {
+						sequtil.Translate(make([]byte, 2, 8+len(s)), append(append([]byte{}, s...), "AA"[:(3-len(s)%3)%3]...))
+					},
 					"TranslateReadingFrames": func(s []byte) { sequtil.TranslateReadingFrames(s) }})
 			}},
 			{Name: "parallel", Race: true, Run: sequtilParallel("translate")},
 			firstCallUnit(firstSequtilAmino),
 			firstParallelUnit(parSequtilAmino),
 			reuseUnit(reuseAmino),
+			roundLensUnit(reuseAmino),
 		},
 	})
 }
@@ -352,6 +359,11 @@ func c13Bytes(c *Ctx) {
 					s = append(append(append([]byte{}, valid[:pos]...), byte(b)), valid[pos:]...)
 				}
 				p := expectPanic(func() { sequtil.DNATo2Bit(nil, s) })
+				// ... and into a destination that has room for the result (a reused buffer)
+				if p2 := expectPanic(func() { sequtil.DNATo2Bit(make([]byte, 2, 64), s) }); p2 != p {
+					k.Failf(map[bool]string{true: "unexpected-panic", false: "missing-panic"}[p2], "DNATo2Bit(dst, %q) panics = %v when dst is nil but %v when dst has spare capacity", s, p, p2)
+					return
+				}
 				if ok && p {
 					k.Failf("unexpected-panic", "DNATo2Bit(%q) panicked", s)
 					return
@@ -378,6 +390,8 @@ func c13Bytes(c *Ctx) {
 				dst := []byte(nil)
 				if lo%3 == 1 {
 					dst = []byte("prefix")
+				} else if lo%3 == 2 {
+					dst = make([]byte, 1, 32)
 				}
 				p := expectPanic(func() { sequtil.DNATo2Bit(dst, s) })
 				if ok1 && ok2 && p {
